@@ -165,15 +165,18 @@ def encodeChar (p : StrPrefix) (n : Nat) : List Nat :=
   | .u => utf16 n
   | .U | .L => [n]
 
-/-- 6.4.5p5: prefix of a sequence of adjacent literals: if any token has a prefix the sequence is
-    treated as having that prefix (mixing two different prefixes is implementation-defined or a
-    constraint violation and is outside this specification: `none`) -/
-def joinPrefix : List StrPrefix → Option StrPrefix
-  | [] => some .none
+/-- 6.4.5p5: "If any of the tokens has an encoding prefix, the resulting multibyte character sequence is treated as
+    having the same prefix; otherwise, it is treated as a character string literal."  Two different prefixes in one
+    sequence are a constraint violation (u8 with a wide one, 6.4.5p2) or implementation-defined (two wide ones): `none`.
+    Computed left to right from the prefix seen so far; `C11_join_prefix_spec` proves the declarative reading. -/
+def joinPrefixFrom (acc : StrPrefix) : List StrPrefix → Option StrPrefix
+  | [] => some acc
   | p :: ps =>
-    match joinPrefix ps with
-    | Option.none => Option.none
-    | some q => if p = .none then some q else if q = .none then some p else if p = q then some p else Option.none
+    if acc = .none then joinPrefixFrom p ps
+    else if p = .none ∨ p = acc then joinPrefixFrom acc ps
+    else Option.none
+
+def joinPrefix (ps : List StrPrefix) : Option StrPrefix := joinPrefixFrom .none ps
 
 -- ------------------------------------------------------------------ 5.1.1.2 translation phases 1 and 2
 
